@@ -417,6 +417,13 @@ func gen(work string, seed uint64, nrand, nmixed int) genOut {
 	}
 	analyzers := allAnalyzers()
 	o := genOut{Seed: seed, Module: mod}
+	// packages that exist only as tests / have an external test package (real binary only: they import "testing")
+	hx.WriteFile(filepath.Join(mod, "only_tests", "only_tests_test.go"), "package only_tests\n\nimport \"testing\"\n\nfunc helper(p *int) *int {\n\tif p == nil {\n\t\treturn nil\n\t}\n\treturn p\n}\n\nfunc TestX(t *testing.T) {\n\tif helper(nil) != nil {\n\t\tt.Fatal(\"x\")\n\t}\n}\n")
+	hx.WriteFile(filepath.Join(mod, "ext_tests", "ext_tests.go"), "// Package ext_tests has an external test package.\npackage ext_tests\n\n// F returns its argument.\nfunc F(p *int) *int { return p }\n")
+	hx.WriteFile(filepath.Join(mod, "ext_tests", "ext_tests_test.go"), "package ext_tests_test\n\nimport (\n\t\"testing\"\n\n\t\"example.com/c03gen/ext_tests\"\n)\n\nfunc TestF(t *testing.T) {\n\tif ext_tests.F(nil) != nil {\n\t\tt.Fatal(\"x\")\n\t}\n}\n")
+	for _, n := range []string{"only_tests", "ext_tests"} {
+		o.Packages = append(o.Packages, pkgRec{Name: n, Dir: filepath.Join(mod, n), Snippets: []string{n}, Targets: []string{"pkg:" + n}, BinaryOnly: true})
+	}
 	for _, a := range analyzers {
 		o.Analyzers = append(o.Analyzers, a.Name)
 	}
